@@ -1,8 +1,9 @@
 #!/bin/sh
-# every stored seeded change against its owning check, for the given VERIF_SEED values
+# every stored seeded change against the first check that its meta.json names, for the given VERIF_SEED values
 for s in "$@"; do
   for d in /verif/seeded/C*; do
-    id=$(basename $d)
-    echo "seed=$s $id: $(VERIF_SEED=$s /verif/dev/try_seed.sh $d/patch.diff $id | tr '\n' ' ')"
+    name=$(basename $d)
+    checks=$(python3 -c "import json; print(json.load(open('$d/meta.json'))['detected_by'][0])")
+    echo "seed=$s $name -> $checks: $(VERIF_SEED=$s /verif/dev/try_seed.sh $d/patch.diff $checks | tr '\n' ' ')"
   done
 done
